@@ -338,6 +338,14 @@ func (s *sc) appWrite(l *lstream) {
 	foreign := r.Chance(0.04) && !s.hasKind[zoo.CCNoOpPacer] // the cc pacer routes by header SSRC (documented ErrUnknownStream)
 	if foreign {
 		ssrc, pt = 0xF0000000|r.U32()&0xffff, uint8(r.Intn(128))
+		if len(s.ls) > 1 && r.Bool() {
+			// ... or the SSRC of ANOTHER bound local stream: still this writer's packet, it
+			// leaves through this stream's next writer
+			if o := s.ls[r.Intn(len(s.ls))]; o != l && o.bound {
+				ssrc = o.opts.SSRC
+				s.c.Add("app_packets_carrying_another_bound_streams_ssrc", 1)
+			}
+		}
 	}
 	h := gen.Header(r, sh, ssrc, pt, l.seq, l.ts, uint8(l.opts.TWCCID))
 	if l.opts.TWCCID != 0 && l.appSetsTWCC {
